@@ -204,6 +204,7 @@ def run(ctx, R, tier):
         common = [x for x in qa if x in qb]
         R.check(common == qb and qb == ['set_volume', 'set_playback_rate', 'set_panning', 'pause', 'resume', 'stop'], 'B.C09.sib-cmd', 'order',
                 'command order differs: static %s, streaming %s' % (qa, qb), detail={'static': qa, 'streaming': qb})
+    transport_cmd_order(F, R)
     for tag, owner in (('static', ST), ('streaming', SS)):
         ob_ = F.body('<%s as sound::Sound>::on_start_processing' % owner)
         if R.check(ob_ is not None, 'B.C09.sib-on-start', 'anchor:' + tag, 'on_start_processing not found'):
@@ -215,6 +216,22 @@ def run(ctx, R, tier):
                     rc.append(bb)
             R.check(len(st) == 1 and len(rc) == 1 and order_ok(ob_, st, rc), 'B.C09.sib-on-start', tag,
                     '%s::on_start_processing does not publish the position before reading commands' % owner, detail='position.store ≺ read_commands')
+
+
+def transport_cmd_order(F, R, rule='B.C09.sib-cmd'):
+    """Commands of different kinds issued between two callbacks take effect as if applied in one fixed order: the playhead's
+    commands are polled loop region first, then the relative seek, then the absolute one - in the static sound's
+    `read_commands` and in the decoder thread's `run` alike - so that a seek issued after a loop-region change is wrapped
+    by the region that is in force (and the two kinds of sound agree)."""
+    DS = 'sound::streaming::sound::decode_scheduler::DecodeScheduler::<Error>'
+    want = ['set_loop_region', 'seek_by', 'seek_to']
+    for tag, b in (('static', F.inlined_view(ST + '::read_commands', depth=1, pred=lambda hp: hp.startswith(ST + '::')) or F.body(ST + '::read_commands')),
+                   ('streaming', F.inlined_view(DS + '::run', depth=1, pred=lambda hp: hp.startswith(DS + '::') and not hp.endswith(('::frame_at_index', '::seek_to', '::seek_by', '::seek_to_index'))))):
+        if not R.check(b is not None, rule, 'anchor:transport-order:' + tag, 'command reading of the %s sound not found' % tag):
+            continue
+        q = [x for x in reader_sequence(b) if x in want]
+        R.check(q == want, rule, 'transport-order:' + tag, 'the %s sound polls its playhead commands in the order %s, not %s' % (tag, q, want),
+                detail={'order': q}, where=b.file)
 
 
 def reader_sequence(b):
